@@ -183,7 +183,10 @@ def run_case(seed, tier, rec, st):
                     rec.violation(f"decode-disagree:{bad[0]}-vs-codec:{rbase[0]}->{res[bad[0]][0]}",
                                   {"type": tsrc, "input": common.short(d, 300), "mutation": label, "codec": common.short(rbase, 300),
                                    "others": {n: common.short(res[n], 300) for n in bad[:4]}, "family": fam.to_json()},
-                                  {"routes": bad, "type_kinds": kinds(fam, t), "input_is_none": d is None})
+                                  {"routes": bad, "type_kinds": kinds(fam, t), "input_is_none": d is None,
+                                   # Optional[Union[A, B]] is Union[A, B, None]: the None member's fallback (finding F02)
+                                   "explained_by": "F02" if (bad == ["optional"] and t[0] != "raw" and tast.strip(t)[0] in ("union", "tv")
+                                                             and res["optional"] == ("ok", None) and rbase[0] == "raise") else None})
                 else:
                     rec.count("decode_all_agree")
                 rec.nontrivial((tshape, repr(fingerprint(d))[:200]))
